@@ -187,7 +187,7 @@ func emitB(c *kit.Ctx, w World, cell, baseName string) {
 	for i, ids := range o.Cands {
 		cands[i] = kit.GOpt(ids != nil, kit.GListOf(ids, gs))
 	}
-	g := fmt.Sprintf("CaseW %s %s %s %s", w.G(), kit.GList(cands), kit.GListOf(o.NodeOK, kit.GBool), kit.GList(o.PodRes))
+	g := fmt.Sprintf("CaseW %s %s %s %s %s", w.G(), kit.GList(cands), kit.GListOf(o.NodeOK, kit.GBool), kit.GList(o.PodRes), kit.GListOf(o.Noms, kit.GBool))
 	c.AddCase(g, struct {
 		Kind  string `json:"kind"`
 		World World  `json:"world"`
